@@ -121,10 +121,10 @@ func parseSpecExpr(s string) (e Expr, err error) {
 type parseErr string
 
 func (p *sparser) fail(f string, a ...interface{}) { panic(parseErr(fmt.Sprintf(f, a...))) }
-func (p *sparser) peek() tok                         { return p.toks[p.pos] }
-func (p *sparser) next() tok                         { t := p.toks[p.pos]; p.pos++; return t }
-func (p *sparser) isOp(v string) bool                { t := p.peek(); return t.k == "op" && t.v == v }
-func (p *sparser) isId(v string) bool                { t := p.peek(); return t.k == "id" && t.v == v }
+func (p *sparser) peek() tok                       { return p.toks[p.pos] }
+func (p *sparser) next() tok                       { t := p.toks[p.pos]; p.pos++; return t }
+func (p *sparser) isOp(v string) bool              { t := p.peek(); return t.k == "op" && t.v == v }
+func (p *sparser) isId(v string) bool              { t := p.peek(); return t.k == "id" && t.v == v }
 func (p *sparser) expectOp(v string) {
 	if !p.isOp(v) {
 		p.fail("expected %q, got %q", v, p.peek().v)
@@ -301,11 +301,25 @@ func (p *sparser) typ() *TypeExpr {
 		return &TypeExpr{Kind: "map", Key: k, Elem: p.typ()}
 	}
 	n := p.expectId()
+	te := &TypeExpr{Kind: "name", Name: n}
 	if p.isOp(".") {
 		p.next()
-		return &TypeExpr{Kind: "name", Pkg: n, Name: p.expectId()}
+		te = &TypeExpr{Kind: "name", Pkg: n, Name: p.expectId()}
 	}
-	return &TypeExpr{Kind: "name", Name: n}
+	if p.isOp("[") {
+		// explicit type arguments of a generic named type: gera.WrapMap[string, string]
+		p.next()
+		for {
+			te.Args = append(te.Args, p.typ())
+			if p.isOp(",") {
+				p.next()
+				continue
+			}
+			break
+		}
+		p.expectOp("]")
+	}
+	return te
 }
 
 func (p *sparser) qvars() []QVar {
@@ -416,11 +430,11 @@ var blockKeywords = map[string]bool{
 
 type ContractFile struct {
 	GhostVars []QVar
-	PkgPath string
-	Path    string
-	Funcs   []*FuncContract
-	Ghosts  []*GhostFunc
-	Lemmas  []*Lemma
+	PkgPath   string
+	Path      string
+	Funcs     []*FuncContract
+	Ghosts    []*GhostFunc
+	Lemmas    []*Lemma
 }
 
 func firstWord(s string) string {
@@ -442,6 +456,9 @@ func groupLines(lines []string) []string {
 			continue
 		}
 		w := firstWord(t)
+		if _, r := splitTag(t); r != t {
+			w = firstWord(r)
+		}
 		if blockKeywords[w] || clauseKeywords[w] || len(out) == 0 {
 			out = append(out, t)
 		} else {
@@ -460,13 +477,22 @@ func parseContractLines(pkgPath, path string, lines []string) (*ContractFile, er
 	for _, l := range groupLines(lines) {
 		w := firstWord(l)
 		rest := strings.TrimSpace(l[len(w):])
+		// "[C14] ensures ..." / "[C14] on call ...": the obligations of this clause belong to the listed properties only
+		// (a function under contract for several properties otherwise contributes all its obligations to each of them)
+		clauseTag = ""
+		if tag, r := splitTag(l); r != l && cur != nil {
+			clauseTag = tag + " "
+			l = r
+			w = firstWord(l)
+			rest = strings.TrimSpace(l[len(w):])
+		}
 		mkClause := func(kind, src string) (*Clause, error) {
 			e, err := parseSpecExpr(src)
 			if err != nil {
 				return nil, fmt.Errorf("%s: %v", path, err)
 			}
 			counters[kind]++
-			return &Clause{Kind: kind, E: e, Src: strings.Join(strings.Fields(src), " "), Name: fmt.Sprintf("%s:%d", kind, counters[kind])}, nil
+			return &Clause{Kind: kind, E: e, Src: clauseTag + strings.Join(strings.Fields(src), " "), Name: fmt.Sprintf("%s:%d", kind, counters[kind])}, nil
 		}
 		switch w {
 		case "trusted", "func", "closure", "funcfield":
@@ -698,7 +724,7 @@ func parseContractLines(pkgPath, path string, lines []string) (*ContractFile, er
 					if err != nil {
 						return nil, fmt.Errorf("%s: %v", path, err)
 					}
-					ls.Invariants = append(ls.Invariants, &Clause{Kind: "invariant", E: e, Src: strings.Join(strings.Fields(body), " "), Name: fmt.Sprintf("%d", len(ls.Invariants)+1)})
+					ls.Invariants = append(ls.Invariants, &Clause{Kind: "invariant", E: e, Src: clauseTag + strings.Join(strings.Fields(body), " "), Name: fmt.Sprintf("%d", len(ls.Invariants)+1)})
 				case "decreases":
 					e, err := parseSpecExpr(body)
 					if err != nil {
@@ -756,14 +782,46 @@ func splitTop(s string, sep rune) []string {
 	return out
 }
 
+// splitTag splits a leading "[C14]" / "[C13,C14]" property tag off a contract line.
+func splitTag(l string) (tag, rest string) {
+	t := strings.TrimSpace(l)
+	if !strings.HasPrefix(t, "[C") {
+		return "", l
+	}
+	i := strings.Index(t, "]")
+	if i < 0 {
+		return "", l
+	}
+	return t[:i+1], strings.TrimSpace(t[i+1:])
+}
+
+// clauseTag: property tag of the contract line being parsed ("[C14] " or "")
+var clauseTag string
+
+// clauseProps returns the properties a clause source is restricted to (nil: all properties of its function).
+func clauseProps(src string) []string {
+	if !strings.HasPrefix(src, "[") {
+		return nil
+	}
+	i := strings.Index(src, "]")
+	if i < 0 {
+		return nil
+	}
+	return strings.Fields(strings.ReplaceAll(src[1:i], ",", " "))
+}
+
 // "pure func name(a T, b U) R = body" or "func name(...) R" (uninterpreted)
 func parseGhostFunc(rest string) (*GhostFunc, error) {
 	g := &GhostFunc{Src: rest}
 	f := strings.Fields(rest)
 	i := 0
-	for i < len(f) && (f[i] == "pure" || f[i] == "rec") {
+	for i < len(f) && (f[i] == "pure" || f[i] == "rec" || f[i] == "fuel") {
 		if f[i] == "rec" {
 			g.Rec = true
+		}
+		if f[i] == "fuel" {
+			g.Rec = true
+			g.Fuel = true
 		}
 		i++
 	}
@@ -917,12 +975,18 @@ func parseSite(rest string) (*SiteAction, error) {
 		}
 		w := firstWord(a)
 		switch w {
+		case "havoc":
+			e, err := parseSpecExpr(a[len(w):])
+			if err != nil {
+				return nil, err
+			}
+			sa.Acts = append(sa.Acts, SiteAct{Kind: "havoc", E: e, Src: strings.Join(strings.Fields(a), " ")})
 		case "assert", "assume":
 			e, err := parseSpecExpr(a[len(w):])
 			if err != nil {
 				return nil, err
 			}
-			sa.Acts = append(sa.Acts, SiteAct{Kind: w, E: e, Src: strings.Join(strings.Fields(a), " ")})
+			sa.Acts = append(sa.Acts, SiteAct{Kind: w, E: e, Src: clauseTag + strings.Join(strings.Fields(a), " ")})
 		default:
 			eq := indexTopEq(a)
 			if eq < 0 {
